@@ -1,6 +1,12 @@
 package xz
 
-import "hash/crc32"
+import (
+	"crypto/sha256"
+	"hash/crc32"
+	"hash/crc64"
+
+	"github.com/ulikunitz/xz/lzma"
+)
 
 // Reference transcription of "The .xz File Format" 1.0.4 field layouts,
 // written independently of the library (only hash/crc32 is shared, which the
@@ -150,3 +156,157 @@ func specBlockHeader(d []byte, lenient bool) (csize, usize int64, dictCode byte,
 }
 
 func specPad(n int64) int64 { return (4 - n%4) % 4 }
+
+// specBlock is what the reference parser measured for one block.
+type specBlock struct {
+	headerLen, compressed, uncompressed int
+	dictSize                            uint32
+	chunks                              []lzma.VSpecChunk
+}
+
+// specXZDecode is the independent reference decoder for a complete
+// single- or multi-stream .xz file restricted to LZMA2 blocks. It enforces
+// every MUST of the format that applies: header/footer magic, flags and
+// CRCs, block header layout, declared sizes, LZMA2 payload (strict, see
+// lzma.VSpecLZMA2Decode), zero padding, check value, index contents,
+// backward size, stream padding.
+func specXZDecode(z []byte) (content []byte, blocks []specBlock, ok bool) {
+	pos := 0
+	streams := 0
+	for pos < len(z) {
+		// stream padding
+		if streams > 0 && pos+4 <= len(z) && z[pos] == 0 && z[pos+1] == 0 && z[pos+2] == 0 && z[pos+3] == 0 {
+			pos += 4
+			continue
+		}
+		if pos+12 > len(z) {
+			return nil, nil, false
+		}
+		ck, hok := specHeader(z[pos : pos+12])
+		if !hok {
+			return nil, nil, false
+		}
+		pos += 12
+		cs := specCheckSize(ck)
+		type rec struct{ unpadded, uncompressed int64 }
+		var recs []rec
+		for {
+			if pos >= len(z) {
+				return nil, nil, false
+			}
+			if z[pos] == 0 {
+				break
+			}
+			hl := (int(z[pos]) + 1) * 4
+			if pos+hl > len(z) {
+				return nil, nil, false
+			}
+			csz, usz, code, bok := specBlockHeader(z[pos:pos+hl], false)
+			if !bok {
+				return nil, nil, false
+			}
+			dict := uint32(1<<32 - 1)
+			if code < 40 {
+				dict = uint32(2|code&1) << (uint(code)/2 + 11)
+			}
+			pos += hl
+			out, used, chunks, lok := lzma.VSpecLZMA2Decode(z[pos:], dict)
+			if !lok {
+				return nil, nil, false
+			}
+			if (csz >= 0 && csz != int64(used)) || (usz >= 0 && usz != int64(len(out))) {
+				return nil, nil, false
+			}
+			pos += used
+			for p := specPad(int64(used)); p > 0; p-- {
+				if pos >= len(z) || z[pos] != 0 {
+					return nil, nil, false
+				}
+				pos++
+			}
+			if pos+cs > len(z) {
+				return nil, nil, false
+			}
+			if cs > 0 {
+				sum := specCheck(ck, out)
+				for i := 0; i < cs; i++ {
+					if z[pos+i] != sum[i] {
+						return nil, nil, false
+					}
+				}
+			}
+			pos += cs
+			content = append(content, out...)
+			blocks = append(blocks, specBlock{hl, used, len(out), dict, chunks})
+			recs = append(recs, rec{int64(hl + used + cs), int64(len(out))})
+		}
+		// index
+		istart := pos
+		pos++
+		cnt, k, vok := specVarint(z[pos:], false)
+		if !vok || cnt != uint64(len(recs)) {
+			return nil, nil, false
+		}
+		pos += k
+		for _, r := range recs {
+			u, k1, ok1 := specVarint(z[pos:], false)
+			if !ok1 {
+				return nil, nil, false
+			}
+			pos += k1
+			c, k2, ok2 := specVarint(z[pos:], false)
+			if !ok2 {
+				return nil, nil, false
+			}
+			pos += k2
+			if int64(u) != r.unpadded || int64(c) != r.uncompressed {
+				return nil, nil, false
+			}
+		}
+		for (pos-istart)%4 != 0 {
+			if pos >= len(z) || z[pos] != 0 {
+				return nil, nil, false
+			}
+			pos++
+		}
+		if pos+4 > len(z) || specLE32(z[pos:]) != specCRC32(z[istart:pos]) {
+			return nil, nil, false
+		}
+		pos += 4
+		isize := pos - istart
+		if pos+12 > len(z) {
+			return nil, nil, false
+		}
+		bs, fck, fok := specFooter(z[pos : pos+12])
+		if !fok || fck != ck || bs != int64(isize) {
+			return nil, nil, false
+		}
+		pos += 12
+		streams++
+	}
+	return content, blocks, streams > 0
+}
+
+// specCheck computes the block check with the standard library directly
+// (CRC32 IEEE, CRC64 ECMA little endian, SHA-256).
+func specCheck(ck byte, p []byte) []byte {
+	switch ck {
+	case 1:
+		c := specCRC32(p)
+		return []byte{byte(c), byte(c >> 8), byte(c >> 16), byte(c >> 24)}
+	case 4:
+		h := crc64.New(crc64.MakeTable(crc64.ECMA))
+		h.Write(p)
+		c := h.Sum64()
+		out := make([]byte, 8)
+		for i := range out {
+			out[i] = byte(c >> (8 * uint(i)))
+		}
+		return out
+	case 10:
+		h := sha256.New()
+		h.Write(p)
+		return h.Sum(nil)
+	}
+	return nil
+}
